@@ -29,8 +29,9 @@ enum StageSpec {
     /// parse_lifecycles_buffered_from_stream
     Lc,
     /// plugins_process_msgs: 0 = no plugin, k>=2 = a plugin dropping every message with index % k == 0
-    /// followed by a plugin numbering the messages it sees (payload_text)
-    Plugins(u32),
+    /// followed by a plugin numbering the messages it sees (payload_text); a non-empty pacing script adds a
+    /// plugin that stalls the stage thread before message i (a slow stage in the middle of the pipeline)
+    Plugins(u32, Vec<u8>),
     /// buffer_sort_messages(window secs, min_buffer_delay_us, live?) live = the lifecycle table of the Lc stage of this pipeline
     Sort(u8, u64, bool),
     /// filter_as_streams with filters given as json
@@ -41,7 +42,7 @@ impl StageSpec {
     fn to_json(&self) -> Value {
         match self {
             StageSpec::Lc => json!({"k": "lc"}),
-            StageSpec::Plugins(k) => json!({"k": "plugins", "drop": k}),
+            StageSpec::Plugins(k, st) => json!({"k": "plugins", "drop": k, "stall": st}),
             StageSpec::Sort(w, d, l) => json!({"k": "sort", "win": w, "delay": d, "live": l}),
             StageSpec::Filter(f) => json!({"k": "filter", "filters": f}),
         }
@@ -49,7 +50,7 @@ impl StageSpec {
     fn from_json(v: &Value) -> StageSpec {
         match v["k"].as_str().unwrap() {
             "lc" => StageSpec::Lc,
-            "plugins" => StageSpec::Plugins(v["drop"].as_u64().unwrap() as u32),
+            "plugins" => StageSpec::Plugins(v["drop"].as_u64().unwrap() as u32, serde_json::from_value(v["stall"].clone()).unwrap_or_default()),
             "sort" => StageSpec::Sort(v["win"].as_u64().unwrap() as u8, v["delay"].as_u64().unwrap(), v["live"].as_bool().unwrap()),
             _ => StageSpec::Filter(v["filters"].as_array().unwrap().iter().map(|s| s.as_str().unwrap().to_string()).collect()),
         }
@@ -64,7 +65,13 @@ impl StageSpec {
     fn tag(&self) -> &'static str {
         match self {
             StageSpec::Lc => "L",
-            StageSpec::Plugins(_) => "P",
+            StageSpec::Plugins(_, st) => {
+                if st.is_empty() {
+                    "P"
+                } else {
+                    "Pstall"
+                }
+            }
             StageSpec::Sort(_, _, true) => "Slive",
             StageSpec::Sort(_, _, false) => "S",
             StageSpec::Filter(_) => "F",
@@ -156,6 +163,31 @@ impl Plugin for Numbering {
     }
 }
 
+/// a slow stage: stalls before the i-th message it sees
+struct Stall {
+    script: Vec<u8>,
+    i: usize,
+    state: Arc<RwLock<PluginState>>,
+}
+impl Plugin for Stall {
+    fn name(&self) -> &str {
+        "stall"
+    }
+    fn enabled(&self) -> bool {
+        true
+    }
+    fn state(&self) -> Arc<RwLock<PluginState>> {
+        self.state.clone()
+    }
+    fn set_lifecycle_read_handle(&mut self, _lcs_r: &adlt::lifecycle::LcsRType) {}
+    fn sync_all(&mut self) {}
+    fn process_msg(&mut self, _msg: &mut DltMessage) -> bool {
+        pace(self.script[self.i % self.script.len()]);
+        self.i += 1;
+        true
+    }
+}
+
 // ------------------------------------------------------------------ one run of the real code
 /// what a message looks like at the consumer: (index, lifecycle id, ecu, reception, timestamp, text)
 type Seen = (u32, u32, u32, u64, u32, String);
@@ -210,6 +242,7 @@ fn read_table(lcs_r: &LcsR) -> Vec<(u32, u32, u32, u64, u64, u32)> {
 
 fn run_real(p: &Pipeline, s: &Script, hang_timeout: Duration) -> RunOut {
     let t0 = Instant::now();
+    let paced = !s.sched.is_empty(); // the reference run is not paced
     let n = p.stages.len();
     assert_eq!(s.caps.len(), n + 1);
     let full_hits = Arc::new(std::sync::atomic::AtomicUsize::new(0));
@@ -284,17 +317,22 @@ fn run_real(p: &Pipeline, s: &Script, hang_timeout: Duration) -> RunOut {
                     parse_lifecycles_buffered_from_stream(w, rx, outflow!())
                 })));
             }
-            StageSpec::Plugins(k) => {
+            StageSpec::Plugins(k, stall) => {
                 let k = *k;
+                let stall = if paced { stall.clone() } else { vec![] };
+                let stall_on = !stall.is_empty();
                 handles.push(H::Other(std::thread::spawn(move || {
                     let _g = g;
                     let mut plugins: Vec<Box<dyn Plugin + Send>> = vec![];
+                    if !stall.is_empty() {
+                        plugins.push(Box::new(Stall { script: stall, i: 0, state: Arc::new(RwLock::new(PluginState::default())) }));
+                    }
                     if k >= 2 {
                         plugins.push(Box::new(DropEvery { k, state: Arc::new(RwLock::new(PluginState::default())) }));
                         plugins.push(Box::new(Numbering { n: 0, state: Arc::new(RwLock::new(PluginState::default())) }));
                     }
                     match plugins_process_msgs(rx, outflow!(), plugins) {
-                        Ok(p) => StageRes::Plugins(true, p.len()),
+                        Ok(p) => StageRes::Plugins(true, p.len() - if stall_on { 1 } else { 0 }),
                         Err(_) => StageRes::Plugins(false, 0),
                     }
                 })));
@@ -491,7 +529,7 @@ fn oracle(p: &Pipeline, s: &Script, r: &RunOut, b: &RunOut) -> Verdict {
 
 // ------------------------------------------------------------------ generator
 fn gen_msgs(rng: &mut Rng, max: u64) -> Vec<MsgSpec> {
-    let n = match rng.below(12) {
+    let n = match rng.below(30) {
         0 => 0,
         1 => 1,
         2 => 2,
@@ -565,7 +603,8 @@ fn gen_pipeline(rng: &mut Rng, max_msgs: u64) -> Pipeline {
         stages.push(StageSpec::Lc);
     }
     if rng.chance(2, 3) {
-        stages.push(StageSpec::Plugins(if rng.chance(1, 2) { 0 } else { rng.range(2, 5) as u32 }));
+        let stall: Vec<u8> = if rng.chance(1, 3) { (0..rng.range(1, 9)).map(|_| *rng.pick(&[0u8, 0, 0, 1, 2, 3])).collect() } else { vec![] };
+        stages.push(StageSpec::Plugins(if rng.chance(1, 2) { 0 } else { rng.range(2, 5) as u32 }, stall));
     }
     if rng.chance(1, 2) {
         let delay = *rng.pick(&[0u64, 1_000, 100_000, 2_000_000, 20_000_000]);
@@ -746,7 +785,7 @@ fn run_case(p: &Pipeline, s: &Script, r: &RunOut, hang: Duration) -> Done {
 
 fn corpus() -> Vec<Pipeline> {
     let s = 1_000_000u64;
-    let full = vec![StageSpec::Lc, StageSpec::Plugins(3), StageSpec::Sort(3, 100_000, false), StageSpec::Filter(vec![r#"{"type":1,"apid":"AP1"}"#.to_string()])];
+    let full = vec![StageSpec::Lc, StageSpec::Plugins(3, vec![]), StageSpec::Sort(3, 100_000, false), StageSpec::Filter(vec![r#"{"type":1,"apid":"AP1"}"#.to_string()])];
     vec![
         // empty stream through everything
         Pipeline { msgs: vec![], stages: full.clone() },
@@ -755,15 +794,22 @@ fn corpus() -> Vec<Pipeline> {
         // DESIGN Appendix A C07-1 (merge of a confirmed lifecycle): buffering + release in bursts
         Pipeline {
             msgs: vec![(1, RHO, 200000, 0), (2, RHO + s / 5, 0, 0), (1, RHO + s / 2, 0, 0), (1, RHO - s, 0, 0), (3, RHO + 60 * s + s / 10, 0, 0), (1, RHO - 5 * s, 0, 0)],
-            stages: vec![StageSpec::Lc, StageSpec::Plugins(0)],
+            stages: vec![StageSpec::Lc, StageSpec::Plugins(0, vec![0, 3, 0, 0, 2])],
         },
         // two boots of one ecu, everything buffered until the end, live sort
         Pipeline {
             msgs: (0..20).map(|i| (1u8, RHO + i * 100_000 + if i >= 10 { 100 * s } else { 0 }, ((i % 10) * 1000 + 10) as u32, 0u8)).collect(),
-            stages: vec![StageSpec::Lc, StageSpec::Plugins(2), StageSpec::Sort(3, 1_000, true), StageSpec::Filter(vec![r#"{"type":0,"ecu":"EC01"}"#.to_string()])],
+            stages: vec![StageSpec::Lc, StageSpec::Plugins(2, vec![]), StageSpec::Sort(3, 1_000, true), StageSpec::Filter(vec![r#"{"type":0,"ecu":"EC01"}"#.to_string()])],
         },
         // long tidy stream, no lifecycle stage
-        Pipeline { msgs: (0..40).map(|i| (1 + (i % 2) as u8, RHO + i * 1000, (i * 10) as u32, 0u8)).collect(), stages: vec![StageSpec::Plugins(4), StageSpec::Filter(vec![r#"{"type":0,"ecu":"EC01"}"#.to_string()])] },
+        Pipeline { msgs: (0..40).map(|i| (1 + (i % 2) as u8, RHO + i * 1000, (i * 10) as u32, 0u8)).collect(), stages: vec![StageSpec::Plugins(4, vec![1, 0, 0, 3]), StageSpec::Filter(vec![r#"{"type":0,"ecu":"EC01"}"#.to_string()])] },
+        // live sort whose view of the lifecycle table depends on timing: lifecycle A is confirmed (and published with
+        // start 0.5 s) at message 2, message 3 moves its start to 0.1 s, which is only published at the end;
+        // messages 0 (A, 1.0 s or 0.6 s) and 1 (B, 0.85 s) swap their calculated order between the two values
+        Pipeline {
+            msgs: vec![(1, RHO + s, 5_000, 0), (2, RHO + s, 6_500, 0), (2, RHO + s + s / 5, 10_000, 0), (1, RHO + 80 * s, 795_000, 0), (1, RHO + 81 * s, 809_000, 0), (2, RHO + 81 * s + s / 10, 807_000, 0)],
+            stages: vec![StageSpec::Lc, StageSpec::Sort(3, 2_000_000, true)],
+        },
         // filter that passes nothing behind a sort
         Pipeline { msgs: (0..12).map(|i| (1u8, RHO + (12 - i) * 1000, (i * 10) as u32, 0u8)).collect(), stages: vec![StageSpec::Sort(1, 0, false), StageSpec::Filter(vec![r#"{"type":0,"ecu":"EC09"}"#.to_string()])] },
     ]
